@@ -572,7 +572,14 @@ var limitTexts = func() []string {
 
 func genNum(t *rapid.T) NumIn {
 	var n spec.Num
-	switch rapid.IntRange(0, 6).Draw(t, "class") {
+	switch rapid.IntRange(0, 7).Draw(t, "class") {
+	case 7:
+		// few significant bits at an exponent near or beyond what a float64
+		// can hold: the smallest subnormal, halves and odd multiples of it,
+		// 2^-2000, 2^1023 .. 2^1100, odd multiples of them
+		m := rapid.SampledFrom([]int64{1, 3, -1, -3, 5, 1<<52 + 1, 1<<53 - 1}).Draw(t, "mant")
+		e := rapid.SampledFrom([]int{-1074, -1075, -1076, -1080, -1126, -1127, -2000, 1023, 1024, 971, 972, 1100, -1022, -1023}).Draw(t, "exp")
+		n = spec.Num{Route: "pow2", Text: fmt.Sprintf("%d:%d", m, e), Prec: uint(rapid.SampledFrom([]int{53, 53, 64, 512}).Draw(t, "prec"))}
 	case 0, 1:
 		s := rapid.SampledFrom(limitTexts).Draw(t, "limit")
 		n = spec.NParse(s)
